@@ -5,6 +5,7 @@ CONSTANTS
   Slots = 0
   MaxNodes = 4
   MaxCache = 2
+  Cnfs <- NoCnfs
   Ops <- AllOps
   GetIgnoresCompl = FALSE
   GetIgnoresKey = FALSE
